@@ -45,8 +45,71 @@ def execute(case):
         prims = {}
         plock = threading.Lock()
         SBase = SmartSyncState if smart else SyncState
+        tl = threading.local()
+
+        def note(site, key, owned):
+            k = (threading.current_thread().name.split("-")[0], site, key, owned)
+            with plock:
+                prims[k] = prims.get(k, 0) + 1
+
+        class TracedLock:
+            """The state lock, observed: per thread, the nesting depth, and - inside an atomic step (a `scope`: one entry
+            synchronisation, one event application, one on-demand request) - every full release.  A step that was entered with
+            the lock held and lets go of it, or that takes the lock from outside more than once, is two critical sections, not
+            one (observed per call site, not by timing)."""
+            def __init__(self, inner):
+                self._inner = inner
+
+            def acquire(self, blocking=True, timeout=-1):
+                r = self._inner.acquire(blocking, timeout)
+                if r:
+                    tl.depth = getattr(tl, "depth", 0) + 1
+                    if tl.depth == 1:
+                        for sc_ in getattr(tl, "scopes", []):
+                            sc_["outer"] += 1
+                            if sc_["outer"] > 1 and not sc_["flagged"]:
+                                sc_["flagged"] = True
+                                note(sc_["name"], "lock-taken-again-mid-step", 0)
+                return r
+
+            def release(self):
+                tl.depth = getattr(tl, "depth", 0) - 1
+                if tl.depth == 0:
+                    for sc_ in getattr(tl, "scopes", []):
+                        if sc_["entered"] > 0 and not sc_["flagged"]:
+                            sc_["flagged"] = True
+                            fr = traceback.extract_stack(limit=6)
+                            note(sc_["name"] + ":" + ">".join(f.name for f in fr[:-1])[-80:], "lock-released-mid-step", 0)
+                self._inner.release()
+
+            def __enter__(self):
+                self.acquire()
+                return self
+
+            def __exit__(self, *a):
+                self.release()
+
+            def _is_owned(self):
+                return self._inner._is_owned()
+
+        class scope:
+            def __init__(self, name):
+                self.name = name
+
+            def __enter__(self):
+                if not hasattr(tl, "scopes"):
+                    tl.scopes = []
+                tl.scopes.append({"name": self.name, "entered": getattr(tl, "depth", 0), "outer": 0, "flagged": False})
+                note(self.name, "step-observed", 1)
+
+            def __exit__(self, *a):
+                tl.scopes.pop()
 
         class TracedState(SBase):
+            def __init__(self, *a, **kw):
+                SBase.__init__(self, *a, **kw)
+                self.lock = TracedLock(self.lock)
+
             def updated(self, ent, side, key, val):
                 owned = 1 if self.lock._is_owned() else 0
                 fr = traceback.extract_stack(limit=7)
@@ -57,14 +120,33 @@ def execute(case):
                 return SBase.updated(self, ent, side, key, val)
 
         EventManager._provider_guard.clear()
-        kw = {"state_class": TracedState}
+        from cloudsync.sync.manager import SyncManager
+        import cloudsync.smartsync as ssm
+        MBase = ssm.SmartSyncManager if smart else SyncManager
+        EBase = ssm.SmartEventManager if smart else EventManager
+
+        class TracedSmgr(MBase):
+            def _sync_one_entry(self, sync):
+                with scope("sync_step"):
+                    return MBase._sync_one_entry(self, sync)
+
+        class TracedEmgr(EBase):
+            def _process_event(self, event, from_walk=False):
+                with scope("event_apply"):
+                    return EBase._process_event(self, event, from_walk)
+
         if smart:
-            cs = SmartCloudSync.__new__(SmartCloudSync)
+            class TracedSmartCS(SmartCloudSync):
+                def _smart_sync_ent(self, ent):
+                    with scope("smart_request"):
+                        return SmartCloudSync._smart_sync_ent(self, ent)
+
+            cs = TracedSmartCS.__new__(TracedSmartCS)
             CloudSync.__init__(cs, tuple(eng), roots, MockStorage({}), sleep=None, state_class=TracedState,
-                               smgr_class=__import__("cloudsync.smartsync", fromlist=["x"]).SmartSyncManager,
-                               emgr_class=__import__("cloudsync.smartsync", fromlist=["x"]).SmartEventManager)
+                               smgr_class=TracedSmgr, emgr_class=TracedEmgr)
         else:
-            cs = CloudSync(tuple(eng), roots, MockStorage({}), sleep=None, **kw)
+            cs = CloudSync(tuple(eng), roots, MockStorage({}), sleep=None, state_class=TracedState,
+                           smgr_class=TracedSmgr, emgr_class=TracedEmgr)
         events = []
 
         def tree(side):
@@ -155,6 +237,35 @@ def execute(case):
                 quiet = True
                 break
             time.sleep(0.05)
+        if smart:
+            # deterministic tour of the on-demand public methods from an application thread (every remote file the users made)
+            def appseq():
+                for op in case["ops"][1]:
+                    if op[0] != "create":
+                        continue
+                    rp = names.decode(1, op[1])
+                    lp = roots[0] + rp[len(roots[1]):]
+                    calls = [lambda: cs.smart_sync_path(rp, 1), lambda: cs.smart_info_path(lp),
+                             lambda: list(cs.smart_listdir_path(roots[0])), lambda: cs.smart_unsync_path(rp, 1),
+                             lambda: cs.smart_sync_oid(usr[1].info_path(rp).oid), lambda: cs.smart_info_oid(usr[1].info_path(rp).oid),
+                             lambda: cs.smart_unsync_oid(usr[1].info_path(rp).oid), lambda: cs.smart_sync_path(lp, 0)]
+                    for c in calls:
+                        try:
+                            c()
+                        except Exception:       # a request may legitimately be refused (not found yet, ...)
+                            pass
+                        time.sleep(0.002)
+            sq = threading.Thread(target=appseq, name="appseq")
+            sq.start()
+            sq.join()
+            t_end = time.time() + 10
+            while time.time() < t_end:
+                try:
+                    if not cs.busy:
+                        break
+                except Exception:
+                    pass
+                time.sleep(0.05)
         stop_app.set()
         ath.join()
         cs.stop(forever=True)
@@ -164,7 +275,8 @@ def execute(case):
                                "cid": op[2] if op[0] == "create" else 0, "ok": 1, "now": 0})
         for (th, site, key, owned), n in sorted(prims.items()):
             events.append({"ev": "Prim", "thread": th, "site": site, "key": key, "owned": owned, "count": n})
-        events.append({"ev": "Quiet" if quiet else "NoQuiet", "rounds": 0, "post": [tree(0), tree(1)]})
+        # on-demand runs are judged on lock discipline only (what ends up where depends on what was requested when)
+        events.append({"ev": "Note" if smart else ("Quiet" if quiet else "NoQuiet"), "rounds": 0, "post": [tree(0), tree(1)]})
         if errors:
             return None, "user operation failed: %s" % errors[:3]
         return events, None
